@@ -33,6 +33,7 @@ def plan(tier, seed):
     parts = [
         P("shapes", {}, "parse_obj yields nested partial instances, to_partial nested complete instances; constants ignored; mixed operands merge"),
         P("cast_types", {}, "cast/merge across an inheritance chain yields the class asked for; from_partial gives the child model"),
+        P("cast_merged", {}, "a merged partial cast to the partial class of a subclass keeps every value; merging across partial classes of an inheritance chain is associative"),
         P("falsy", {}, "no falsy provided value is dropped (either side, with/without overwrite)"),
         P("atoms2", {}, "atomic fields: absent/absent, one side, conflict raises without overwrite, later wins with it; operands unchanged"),
         P("sets2", {}, "sets are united; operands unchanged"),
